@@ -26,14 +26,16 @@ def sh(cmd, cwd=None, env=None, timeout=3600):
 
 
 def main():
-    pid, n = sys.argv[1], sys.argv[2]
+    sid, n = sys.argv[1], sys.argv[2]      # sid = seed directory id (C05 or C05b); property id = its first three characters
+    pid = sid[:3]
+    tag = sid[3:]
     extra = sys.argv[3:]
-    base = '/tmp/seed/%s' % pid
+    base = '/tmp/seed/%s' % sid
     wt = base + '/wt'
     patch = '%s/out/patch%s.diff' % (base, n)
     demo = '%s/out/demo%s.py' % (base, n)
     notes = '%s/out/notes%s.md' % (base, n)
-    meta = {'property': pid, 'seed': n, 'ran': [], 'at': time.strftime('%Y-%m-%dT%H:%M:%SZ', time.gmtime())}
+    meta = {'property': pid, 'seed': tag + n, 'ran': [], 'at': time.strftime('%Y-%m-%dT%H:%M:%SZ', time.gmtime())}
     head = sh('git -C /repo rev-parse HEAD')[1].strip()
     sh('git -C %s checkout -q -- . && git -C %s checkout -q --detach %s' % (wt, wt, head))
     meta['repo_head'] = head[:9]
@@ -80,7 +82,7 @@ def main():
     det = [r for r in meta['ran'] if r['exit'] == 1]
     meta['detected'] = bool(det)
     meta['detected_with_concrete_input'] = any(r['exit'] == 1 and not r['no_failing_input_found'] for r in meta['ran'])
-    out_dir = os.path.join(VERIF, 'seeded', '%s-%s' % (pid, n))
+    out_dir = os.path.join(VERIF, 'seeded', '%s-%s%s' % (pid, tag, n))
     os.makedirs(out_dir, exist_ok=True)
     shutil.copy(patch, os.path.join(out_dir, 'patch.diff'))
     shutil.copy(demo, os.path.join(out_dir, 'demo.py'))
